@@ -186,14 +186,14 @@ def r2(ctx):
 @rule("C06", "R3", "FLOW", "the stored cost is the kernel's own cost of the negated likelihood table", floor=4)
 def r3(ctx):
     from . import c01, c09
-    c01.r9(ctx)     # cost table = -loglik; stored cost = kernel's second result
-    c01.r6(ctx)     # reported cost = cost of the returned path's start state
-    c01.r1(ctx)     # tables are written only by the recurrence
-    c01.r2(ctx)
-    c01.r3(ctx)     # the recurrence accounts price b[i] exactly for pairs with different labels
-    c01.r4(ctx)
-    c09.r4(ctx)     # labels and cost in the result come from one state: the last relabel's
-    c09.r2(ctx)     # nothing relabels or repopulates after the last relabel of a round
+    ctx.sub(c01.r9)     # cost table = -loglik; stored cost = kernel's second result
+    ctx.sub(c01.r6)     # reported cost = cost of the returned path's start state
+    ctx.sub(c01.r1)     # tables are written only by the recurrence
+    ctx.sub(c01.r2)
+    ctx.sub(c01.r3)     # the recurrence accounts price b[i] exactly for pairs with different labels
+    ctx.sub(c01.r4)
+    ctx.sub(c09.r4)     # labels and cost in the result come from one state: the last relabel's
+    ctx.sub(c09.r2)     # nothing relabels or repopulates after the last relabel of a round
 
 
 @rule("C06", "R4", "AGREE", "the multi-series result copies every aggregate field from the master result under the same name", floor=10)
